@@ -6,6 +6,7 @@ import VProofs.Lemmas.UseNew
 import VProofs.Lemmas.UseAsm
 import VProofs.Lemmas.UseTag
 import VProofs.Lemmas.TrainCli
+import VProofs.Lemmas.ScoreWindow0b
 /-!
 # C11 — Training is total and its output is always usable
 
@@ -164,5 +165,125 @@ example :
         (fun i => (i.dictWords, i.tagDict.length)) = .ok ([['a', 'b'], ['c'], ['z', 'z']], 3) ∧
     (trainCliInputs false [] [] [['a', 'b', '\n', '/', 'c', '\n']]).map (fun i => i.dictWords) = .err .invalidArgument := by
   decide +kernel
+
+end V
+
+/-! ## window size 0 (`--charw 0`, `--typew 0`): the kind of n-gram is switched off
+
+`C11_assembled_wf` and `C11_trained_predictor_scores` need both windows to be at least 1.  The theorems below cover 0..255:
+`ngramFeats 0 N` is empty, so the trace has no n-gram feature of a switched-off kind, the assembled model has no n-gram of that
+kind, and the predictor (which would ignore them anyway, `C01_scores_window0`) reports exactly bias + learned weights. -/
+namespace V
+
+/-- the boundary model assembled from the learner's output is well-formed in the sense of `WFModel0` for windows 0..255 -/
+theorem C11_assembled_wf0 (cfg : TrainCfg) (hc : CfgOK cfg) (hcw : cfg.charW ≤ 255) (htw : cfg.typeW ≤ 255)
+    (hlen : ∀ w ∈ cfg.dictWords, w.length ≤ 32767)
+    (trace : List (Feature × Int)) (bias : Int) (tms : List TagModel)
+    (hg : ∀ e ∈ trace, Generable cfg e.1) (m : WModel) (h : assembleBoundary cfg trace bias tms = .ok m) :
+    WFModel0 m :=
+  (C11L.assembled_wf0 cfg hc.words_ne hc.words_nodup hc.maxlen_pos hcw htw hlen trace bias tms hg m h).1
+
+/-- it contains no n-gram of a kind whose window is 0, so nothing of it is ignored by the predictor -/
+theorem C11_assembled_dropW0 (cfg : TrainCfg) (hc : CfgOK cfg) (hcw : cfg.charW ≤ 255) (htw : cfg.typeW ≤ 255)
+    (hlen : ∀ w ∈ cfg.dictWords, w.length ≤ 32767)
+    (trace : List (Feature × Int)) (bias : Int) (tms : List TagModel)
+    (hg : ∀ e ∈ trace, Generable cfg e.1) (m : WModel) (h : assembleBoundary cfg trace bias tms = .ok m) :
+    (m.charW = 0 → m.charNgrams = []) ∧ (m.typeW = 0 → m.typeNgrams = []) ∧ dropW0 m = m :=
+  have hw := C11L.assembled_wf0 cfg hc.words_ne hc.words_nodup hc.maxlen_pos hcw htw hlen trace bias tms hg m h
+  ⟨hw.2.1, hw.2.2, dropW0_of_empty m hw.2.1 hw.2.2⟩
+
+/-- `C11_predictor_accepts` for windows 0..255: every `WFModel0` with well-formed tag models whose tag n-grams each carry at
+least one weight is accepted by the predictor, with and without tag prediction, in every build configuration (with a zero
+window the n-grams of that kind, however ill-formed, cannot make the construction fail) -/
+theorem C11_predictor_accepts_window0 (cfg : Cfg) (m : WModel) (hm : WFModel0 m) (ht : WFTags m)
+    (hw : ∀ tm ∈ m.tagModels, (∀ d ∈ tm.charNgrams, d.weights ≠ []) ∧ (∀ d ∈ tm.typeNgrams, d.weights ≠ []))
+    (pt : Bool) (hcfg : pt = true → cfg.tagPred = true) : ∃ p, Predictor.new cfg m pt = .ok p :=
+  C11L.new_total0 cfg m hm
+    (fun tm htm d hd => ⟨(ht.char_ok tm htm d hd).1, (hw tm htm).1 d hd⟩)
+    (fun tm htm d hd => ⟨(ht.type_ok tm htm d hd).1, (hw tm htm).2 d hd⟩) pt hcfg
+
+/-- **end to end, windows 0..255** (C09 ∘ C11 ∘ C01): as `C11_trained_predictor_scores` without the lower bounds on the
+windows -/
+theorem C11_trained_predictor_scores_window0 (tc : TrainCfg) (hc : CfgOK tc) (hcw : tc.charW ≤ 255)
+    (htw : tc.typeW ≤ 255) (hlen : ∀ w ∈ tc.dictWords, w.length ≤ 32767)
+    (trace : List (Feature × Int)) (bias : Int) (tms : List TagModel)
+    (hnd : (trace.map Prod.fst).Nodup) (hg : ∀ e ∈ trace, Generable tc e.1) (m : WModel)
+    (h : assembleBoundary tc trace bias tms = .ok m)
+    (cfg : Cfg) (pt : Bool) (p : Predictor) (hp : Predictor.new cfg m pt = .ok p)
+    (s : Sentence) (hs : SentOK s) (pid : Nat) :
+    ∃ s', p.predict pid s = .ok s' ∧
+      s'.boundaryScores = .ok ((List.range (s.text.length - 1)).map fun b =>
+        bias + ((genFeatures tc s.text b).map (wqOf trace)).sum) := by
+  have hwf : WFModel0 m := C11_assembled_wf0 tc hc hcw htw hlen trace bias tms hg m h
+  obtain ⟨s', h1, h2, _⟩ := C01_scores_window0 cfg m hwf pt p hp s hs pid
+  refine ⟨s', h1, ?_⟩
+  rw [h2, (C11_assembled_dropW0 tc hc hcw htw hlen trace bias tms hg m h).2.2]
+  congr 1
+  unfold specScores
+  apply List.map_congr_left
+  intro b hb
+  have hb' : b + 1 < s.text.length := by
+    have := List.mem_range.mp hb
+    omega
+  exact C09_scores tc hc trace bias tms hnd hg m h s.text b hb'
+
+/-! ### non-vacuity: training with `--charw 0` (character n-gram size 2 requested but switched off), a type n-gram and a
+dictionary word -/
+namespace C11Ex0
+
+def tc : TrainCfg :=
+  { charW := 0, charN := 2, typeW := 1, typeN := 1, dictWords := [['a', 'b']], dictMaxLen := 1 }
+def text : List Char := ['a', 'b', 'a']
+def trace : List (Feature × Int) :=
+  [(.typeNgram [2] (-1), 11), (.typeNgram [2] 0, -2), (.dictWord 1 .inside, 13), (.dictWord 1 .right, -40)]
+def model : WModel :=
+  { charNgrams := [], typeNgrams := [⟨[2], [-2, 11]⟩], dict := [⟨['a', 'b'], [0, 13, -40], []⟩],
+    bias := -20, charW := 0, typeW := 1, tagModels := [] }
+def sentence : Sentence := { Sentence.default with text := text, types := typesOf text, bounds := [B.U, B.U] }
+
+/-- with window 0 the trainer extracts no character n-gram at all -/
+example : ∀ i, i < 2 → ngramFeats tc.charW tc.charN text i = [] := by decide
+
+/-- the hypotheses of `C11_assembled_wf0` / `C11_trained_predictor_scores_window0` are satisfiable with a zero window, the
+assembled model is the expected one and satisfies the conclusions (`WFModel0`, nothing to drop) -/
+example :
+    CfgOK tc ∧ tc.charW ≤ 255 ∧ tc.typeW ≤ 255 ∧ (∀ w ∈ tc.dictWords, w.length ≤ 32767) ∧ (trace.map Prod.fst).Nodup ∧
+    (∀ e ∈ trace, Generable tc e.1) ∧ assembleBoundary tc trace (-20) [] = .ok model ∧ SentOK sentence ∧
+    WFModel0 model ∧ dropW0 model = model := by
+  refine ⟨⟨by decide, by decide, by decide⟩, by decide, by decide, by decide, by decide, ?_, by decide,
+    ⟨by decide, rfl, rfl⟩,
+    { charW_le := by decide, typeW_le := by decide, char_nodup := by decide, char_shape := by decide,
+      type_nodup := by decide, type_shape := by decide, dict_nodup := by decide, dict_shape := by decide }, by decide⟩
+  intro e he
+  have hgen : ∀ i, i + 1 < text.length → ∀ f, f ∈ genFeatures tc text i → Generable tc f :=
+    fun i hi f hf => ⟨text, i, hi, hf⟩
+  have : ∀ e ∈ trace, e.1 ∈ genFeatures tc text 0 ∨ e.1 ∈ genFeatures tc text 1 := by decide
+  rcases this e he with h | h
+  · exact hgen 0 (by decide) _ h
+  · exact hgen 1 (by decide) _ h
+
+/-- non-vacuity of `C11_predictor_accepts_window0`: the model of `C01.lean` with character window 0, ill-formed character
+n-grams and a tag model satisfies its hypotheses, and is accepted -/
+example : WFTags C01_exModel0 ∧
+    (∀ tm ∈ C01_exModel0.tagModels, (∀ d ∈ tm.charNgrams, d.weights ≠ []) ∧ (∀ d ∈ tm.typeNgrams, d.weights ≠ [])) :=
+  ⟨⟨by decide, by decide, by decide, by decide⟩, by decide⟩
+example : (Predictor.new {} C01_exModel0 true).isOk = true ∧ (Predictor.new {} C01_exModel0 false).isOk = true := by decide
+
+def predict (cfg : Cfg) (pt : Bool) : Res (List Int) :=
+  match Predictor.new cfg model pt with
+  | .ok p => (p.predict 7 sentence).bind (·.boundaryScores)
+  | .err e => .err e
+  | .panic x => .panic x
+  | .ub x => .ub x
+
+/-- the predictor built from it (cached, plain, tag-aware configuration) reports on `aba` the learned numbers:
+boundary 0: −20 + 11 − 2 + 13 (inside `ab`) = 2, boundary 1: −20 + 11 − 2 − 40 (right of `ab`) = −51 -/
+example : (List.range (text.length - 1)).map (fun b => -20 + ((genFeatures tc text b).map (wqOf trace)).sum)
+    = [2, -51] := by decide
+example : predict {} false = .ok [2, -51] := by decide
+example : predict { fixed := false, cache := false, tagPred := false } false = .ok [2, -51] := by decide
+example : predict {} true = .ok [2, -51] := by decide
+
+end C11Ex0
 
 end V
